@@ -74,6 +74,7 @@ static int vk_fd_obj[VK_NFD], vk_fd_proc[VK_NFD], vk_fd_open[VK_NFD];
 static int vk_nmap;
 static int vk_map_obj[VK_NMAP], vk_map_proc[VK_NMAP];
 static long vk_map_pages[VK_NMAP];      /* pages still mapped (0 = gone) */
+static int vk_map_wr[VK_NMAP];          /* mapped with PROT_WRITE */
 
 void vk_reap(int p) {
   for (int i = 0; i < VK_NSEMH; i++) if (vk_semh_proc[i] == p) vk_semh_open[i] = 0;
@@ -269,7 +270,7 @@ int vm_fstat(int fd, struct stat *st) {
 }
 
 void *vm_mmap(void *addr, size_t len, int prot, int flags, int fd, off_t off) {
-  (void) addr; (void) prot;
+  (void) addr;
   if (vk_enter()) return MAP_FAILED;
   if (vk_fault()) return MAP_FAILED;
   int f = vk_fd_index(fd);
@@ -282,6 +283,7 @@ void *vm_mmap(void *addr, size_t len, int prot, int flags, int fd, off_t off) {
   int m = vk_nmap++;
   vk_map_obj[m] = vk_fd_obj[f]; vk_map_proc[m] = vk_cur;
   vk_map_pages[m] = (long) ((len + VK_PAGE - 1) / VK_PAGE);
+  vk_map_wr[m] = (prot & PROT_WRITE) != 0;
   return vk_shm_mem(vk_fd_obj[f]);
 }
 
@@ -340,6 +342,11 @@ long vk_map_len(int p, const void *a) {
     if (m < vk_nmap && vk_map_proc[m] == p && vk_map_pages[m] > 0 && a == (const void *) vk_shm_mem(vk_map_obj[m]) && vk_map_pages[m] * VK_PAGE > best)
       best = vk_map_pages[m] * VK_PAGE;
   return best;
+}
+int vk_map_writable(int p, const void *a) {
+  for (int m = 0; m < VK_NMAP; m++)
+    if (m < vk_nmap && vk_map_proc[m] == p && vk_map_pages[m] > 0 && a == (const void *) vk_shm_mem(vk_map_obj[m]) && vk_map_wr[m]) return 1;
+  return 0;
 }
 int vk_open_fds(int p) { int n = 0; for (int i = 0; i < VK_NFD; i++) if (vk_fd_open[i] && vk_fd_proc[i] == p) n++; return n; }
 int vk_names_linked(void) { int n = 0; for (int s = 0; s < VK_NSLOT; s++) { if (vk_semname[s]) n++; if (vk_shmname[s]) n++; } return n; }
